@@ -160,7 +160,7 @@ var _ uuid.UUID
 
 // proto.Unmarshal: fills the message it is given; nothing is assumed about the decoded content.
 //@ func github.com/golang/protobuf/proto.Unmarshal
-//@ props C02 C04 C11 C12 C14
+//@ props C02 C04 C11 C12 C14 C20
 //@ assume
 //@ modifies fields(pb)
 
@@ -712,4 +712,127 @@ var _ uuid.UUID
 //@ func (*storage.partition).unloadRaft
 //@ props C05 C06
 //@ assume
+//@ modifies *
+
+// ---------------------------------------------------------------------------------------------
+// C14: the dataset catalogue as a replicated state machine. cat(dm) = dm.datasets : id -> dataset (with its meta record).
+
+//@ spec dmwf(dm *DatasetManager) bool = dm.datasets != nil && dm.notificator != nil && dm.allocator != nil
+
+// newDataset (assumed): builds the in-memory dataset from the decoded record; fails only on malformed partition ids
+//@ func storage.newDataset
+//@ props C14
+//@ assume
+//@ ensures [built] isnil(ret1) ==> ret0 != nil && fresh(ret0) && ret0.id == id && ret0.meta != nil && ret0.meta.Dimension == meta.Dimension && ret0.meta.Space == meta.Space && ret0.meta.PartitionCount == meta.PartitionCount && ret0.meta.ReplicationFactor == meta.ReplicationFactor && ret0.meta.Partitions == meta.Partitions
+//@ ensures [failed] !isnil(ret1) ==> ret0 == nil
+//@ modifies nothing
+
+//@ func (*storage.Allocator).watch
+//@ props C14
+//@ assume
+//@ modifies map(this.partitions)
+//@ func (*storage.Allocator).unwatch
+//@ props C14
+//@ assume
+//@ modifies map(this.partitions)
+
+//@ func (*storage.DatasetManager).createDataset
+//@ props C14
+//@ safety C12
+//@ ghost notified int = 0
+//@ ghost outcome interface{} = nil
+//@ ghost gid uuid.UUID = uuid.Nil
+//@ at call Notificator).Notify
+//@ set notified = notified + 1
+//@ set outcome = $arg2
+//@ end
+//@ at call uuid.FromBytes
+//@ set gid = $ret0
+//@ end
+//@ requires [wf] dmwf(this)
+//@ ensures [notify-once] isnil(ret) ==> notified == 1
+//@ ensures [exists] isnil(ret) && old(has(this.datasets, gid)) ==> outcome == DatasetAlreadyExistsErr && this.datasets[gid] == old(this.datasets[gid]) && has(this.datasets, gid)
+//@ ensures [created] isnil(ret) && !old(has(this.datasets, gid)) && isnil(outcome) ==> has(this.datasets, gid) && this.datasets[gid] != nil && this.datasets[gid].id == gid && this.datasets[gid].meta.Dimension == dataset.Dimension && this.datasets[gid].meta.Space == dataset.Space && this.datasets[gid].meta.PartitionCount == dataset.PartitionCount && this.datasets[gid].meta.ReplicationFactor == dataset.ReplicationFactor && this.datasets[gid].meta.Partitions == dataset.Partitions
+//@ ensures [others] forall j uuid.UUID :: j != gid ==> has(this.datasets, j) == old(has(this.datasets, j)) && this.datasets[j] == old(this.datasets[j])
+//@ ensures [undecodable-changes-nothing] !isnil(ret) ==> notified == 0 && forall j uuid.UUID :: has(this.datasets, j) == old(has(this.datasets, j)) && this.datasets[j] == old(this.datasets[j])
+//@ modifies map(this.datasets), map(this.allocator.partitions)
+
+//@ func (*storage.DatasetManager).deleteDataset
+//@ props C14
+//@ safety C12
+//@ ghost notified int = 0
+//@ ghost outcome interface{} = nil
+//@ ghost gid uuid.UUID = uuid.Nil
+//@ at call Notificator).Notify
+//@ set notified = notified + 1
+//@ set outcome = $arg2
+//@ end
+//@ at call uuid.FromBytes
+//@ set gid = $ret0
+//@ end
+//@ requires [wf] dmwf(this)
+//@ requires [entries] forall j uuid.UUID :: has(this.datasets, j) ==> this.datasets[j] != nil
+//@ ensures [notify-once] isnil(ret) ==> notified == 1
+//@ ensures [absent] isnil(ret) && !old(has(this.datasets, gid)) ==> outcome == DatasetNotFoundErr && !has(this.datasets, gid)
+//@ ensures [deleted] isnil(ret) && old(has(this.datasets, gid)) ==> isnil(outcome) && !has(this.datasets, gid)
+//@ ensures [others] forall j uuid.UUID :: j != gid ==> has(this.datasets, j) == old(has(this.datasets, j)) && this.datasets[j] == old(this.datasets[j])
+//@ ensures [undecodable-changes-nothing] !isnil(ret) ==> notified == 0 && forall j uuid.UUID :: has(this.datasets, j) == old(has(this.datasets, j)) && this.datasets[j] == old(this.datasets[j])
+//@ modifies map(this.datasets), map(this.allocator.partitions)
+
+//@ spec snapId(ds []*pb.Dataset, i int) uuid.UUID = uuidOfBytes(ds[i].Id)
+//@ spec inSnap(ds []*pb.Dataset, j uuid.UUID, n int) bool = exists i int :: 0 <= i && i < n && snapId(ds, i) == j
+
+// C14: restoring a catalogue snapshot into ANY manager state yields exactly the snapshot's catalogue (ids).
+//@ func (*storage.DatasetManager).processSnapshot
+//@ props C14
+//@ safety C12
+//@ requires [wf] dmwf(this)
+//@ requires [entries] forall j uuid.UUID :: has(this.datasets, j) ==> this.datasets[j] != nil
+//@ ensures [exact] isnil(ret) ==> forall j uuid.UUID :: has(this.datasets, j) == inSnap(dmSnapshot.Datasets, j, len(dmSnapshot.Datasets))
+//@ ensures [kept-as-they-were] isnil(ret) ==> forall j uuid.UUID :: has(this.datasets, j) && old(has(this.datasets, j)) ==> this.datasets[j] == old(this.datasets[j])
+//@ modifies map(this.datasets), map(this.allocator.partitions)
+//@ loop 1
+//@ invariant [ids] snapshotIds != nil && fresh(snapshotIds) && forall j uuid.UUID :: has(snapshotIds, j) == inSnap(dmSnapshot.Datasets, j, rangeindex + 1)
+//@ invariant [added] forall j uuid.UUID :: inSnap(dmSnapshot.Datasets, j, rangeindex + 1) ==> has(this.datasets, j)
+//@ invariant [nothing-else] forall j uuid.UUID :: has(this.datasets, j) ==> old(has(this.datasets, j)) || inSnap(dmSnapshot.Datasets, j, rangeindex + 1)
+//@ invariant [old-kept] forall j uuid.UUID :: old(has(this.datasets, j)) ==> has(this.datasets, j) && this.datasets[j] == old(this.datasets[j])
+//@ invariant [entries] forall j uuid.UUID :: has(this.datasets, j) ==> this.datasets[j] != nil
+//@ invariant [snapshot-fixed] dmwf(this) && forall i int :: 0 <= i && i < len(dmSnapshot.Datasets) ==> dmSnapshot.Datasets[i] == old(dmSnapshot.Datasets[i])
+//@ loop 3
+//@ invariant [ids] snapshotIds != nil && forall j uuid.UUID :: has(snapshotIds, j) == inSnap(dmSnapshot.Datasets, j, len(dmSnapshot.Datasets))
+//@ invariant [snap-present] forall j uuid.UUID :: has(snapshotIds, j) ==> has(this.datasets, j)
+//@ invariant [visited-pruned] forall j uuid.UUID :: $visited[j] && !has(snapshotIds, j) ==> !has(this.datasets, j)
+//@ invariant [only-deletions] forall j uuid.UUID :: has(this.datasets, j) ==> $start[j]
+//@ invariant [kept] forall j uuid.UUID :: has(this.datasets, j) && old(has(this.datasets, j)) ==> this.datasets[j] == old(this.datasets[j])
+//@ invariant [entries] dmwf(this) && forall j uuid.UUID :: has(this.datasets, j) ==> this.datasets[j] != nil
+//@ loop 4
+//@ invariant [ids] snapshotIds != nil
+
+//@ func (*storage.DatasetManager).updatePartitionNodes
+//@ props C14
+//@ assume
+//@ modifies *
+
+// C14: one catalogue entry is applied by exactly one of the three apply functions (none is skipped silently for a known type)
+//@ func (*storage.DatasetManager).process
+//@ props C14
+//@ safety C12
+//@ ghost applied int = 0
+//@ ghost decoded int = 0
+//@ at call proto.Unmarshal
+//@ set decoded = ite(isnil($ret0), 1, 0)
+//@ end
+//@ at call DatasetManager).createDataset
+//@ set applied = applied + 1
+//@ end
+//@ at call DatasetManager).deleteDataset
+//@ set applied = applied + 1
+//@ end
+//@ at call DatasetManager).updatePartitionNodes
+//@ set applied = applied + 1
+//@ end
+//@ requires [wf] dmwf(this)
+//@ requires [entries] forall j uuid.UUID :: has(this.datasets, j) ==> this.datasets[j] != nil
+//@ ensures [applied-once] decoded == 1 && len(change.NotificationId) == 16 && change.Type >= 0 && change.Type <= 2 ==> applied == 1
+//@ ensures [undecodable-applies-nothing] decoded == 0 ==> applied == 0
 //@ modifies *
